@@ -40,7 +40,7 @@ func (s *Server) HandleBefore(
 		q := pctx.Req.Question[0]
 		qt := q.Qtype
 		host := aghnet.NormalizeDomain(q.Name)
-		if s.access.isBlockedHost(host, qt) {
+		if s.currentAccess().isBlockedHost(host, qt) {
 			log.Debug("access: request %s %s is in access blocklist", dns.Type(qt), host)
 
 			return s.preBlockedResponse(pctx)
